@@ -169,11 +169,21 @@ def gen_records(ctx, rng, quick):
                              "api": {"k": "int", "n": 0}, "outcome": "raised:unaddressable"})
                 meta.append((f"{m['name']}.{tag}", {}))
                 continue
-            for existing in contents:
+            # permission is state, not only a table attribute: the same item is also written after its permission
+            # has been GRANTED (what the simulator does for every item) and after it has been REVOKED again
+            plan = [(existing, None) for existing in contents]
+            orig_rw = acc_s.read_write
+            if first and apis:
+                plan += [(contents[0], "ALL"), (contents[-1], "none")]
+            for existing, perm in plan:
                 base = bytearray(rng.randrange(256) for _ in range(1024))
                 base[pos:pos + L] = existing.to_bytes(L, "big")
                 base = bytes(base)
-                for api, value in apis:
+                if perm is not None:
+                    for acc in (acc_s, acc_a):
+                        acc.set_read_write(None if perm == "none" else perm)
+                    shape = dict(shape, rw=perm)
+                for api, value in (apis if perm is None else apis[:2]):
                     for path, st, acc in (("sync", ss, acc_s), ("async", sa, acc_a)):
                         st.set_status_block(base)
                         cap.calls.clear()
@@ -215,7 +225,11 @@ def gen_records(ctx, rng, quick):
                                     rec["outcome"] = f"raised:apply:{type(e).__name__}"
                                     rec.pop("em", None)
                         recs.append(rec)
-                        meta.append((f"{m['name']}.{tag}", {"value": repr(value)}))
+                        meta.append((f"{m['name']}.{tag}", {"value": repr(value), "permission": perm}))
+            for acc in (acc_s, acc_a):
+                acc.set_read_write(orig_rw)
+            if acc_s.read_write != orig_rw:
+                acc_s.read_write = acc_a.read_write = orig_rw       # (restoring is the harness's business)
     loop.close()
     return recs, meta, shapes_seen
 
